@@ -79,34 +79,38 @@ func round(s *slip.Scope, f slip.Object, args slip.List, depth int) slip.Values 
 		if d == 0 {
 			slip.DivisionByZeroPanic(s, depth, slip.Symbol("round"), args, "divide by zero")
 		}
-		q = tn / d
-		r = tn - q.(slip.Fixnum)*d
-		if r == slip.Fixnum(0) {
+		if d == -1 {
+			// Not a division as the most negative fixnum divided by -1 is
+			// not a fixnum.
+			q = subFixnums(0, tn)
+			r = slip.Fixnum(0)
 			break
 		}
-		ns := tn < slip.Fixnum(0)
-		if ns {
-			tn = -tn
+		// Truncate and then step away from zero if the remainder is more
+		// than half of the divisor or if it is half of the divisor and
+		// the quotient is odd. The remainder has the sign of tn and the
+		// magnitudes are unsigned so that the most negative fixnum fits.
+		tq := tn / d
+		tr := tn - tq*d
+		ar := uint64(tr)
+		if tr < 0 {
+			ar = uint64(-tr)
 		}
-		ds := d < slip.Fixnum(0)
-		if ds {
-			d = -d
+		ad := uint64(d)
+		if d < 0 {
+			ad = uint64(-d)
 		}
-		q = tn / d
-		r = tn - q.(slip.Fixnum)*d
-		dif := r.(slip.Fixnum) * 2
-		if dif == d && q.(slip.Fixnum)%2 != 0 {
-			q = q.(slip.Fixnum) + 1
-			r = tn - q.(slip.Fixnum)*d
-		}
-		if ns {
-			r = -r.(slip.Fixnum)
-			if !ds {
-				q = -q.(slip.Fixnum)
+		if ad-ar < ar || (ad-ar == ar && tq%2 != 0) {
+			if (tn < 0) == (d < 0) {
+				tq++
+				tr -= d
+			} else {
+				tq--
+				tr += d
 			}
-		} else if ds {
-			q = -q.(slip.Fixnum)
 		}
+		q = tq
+		r = tr
 	case slip.SingleFloat:
 		q = tn / div.(slip.SingleFloat)
 		q = slip.Fixnum(math.RoundToEven(float64(q.(slip.SingleFloat))))
